@@ -412,57 +412,37 @@ example : asInt (runScript accessed 30 guideCopyScript) = .ok 3
     ∧ asInt (runScript accessed 30 guideSameStartScript) = .ok 300
     ∧ asInt (runScript accessed 60 recScript) = .ok 10 := ⟨rfl, rfl, rfl, rfl⟩
 
-/-- **capture_complete_counterexample** (known finding F-C02-1 = DESIGN F27). The parser's analysis
-is *not* complete: in `a = (if c then 2 else 3) - a` the read of `a` is free but not recorded. With
-the parser's analysis the witness script fails with `'a' not found`, with the declarative free
-variables it returns 1. -/
-theorem capture_complete_counterexample :
-    ¬ (∀ (ps : List Capture.Name) (body : List Ex) (x : Capture.Name),
-        x ∈ freeVars ps body → x ∈ accessed ps body)
-    ∧ asInt (runScript accessed 20 f27Script) = .error .notfound
-    ∧ asInt (runScript freeVars 20 f27Script) = .ok 1 := by
-  refine ⟨fun h => ?_, rfl, rfl⟩
-  have := h [] f27Body 1 (by decide)
-  revert this
-  decide
+/-- **capture_repaired_shapes** (F-C02-1 = DESIGN F27, fixed in /repo 86c848a; F-C02-2, fixed in
+da73144). The two shapes on which the parser's analysis used to lose a capture are recorded now:
+in `a = (if c then 2 else 3) - a` the read of `a` after the inline `if` (the assignment target is
+"in progress", not assigned, while nested lists are finalized), and in `x + (x = 3)` the read of `x`
+before the assignment (accesses are counted; the assignment discards one). The F27 script returns 1
+under the parser's analysis as under the declarative one. -/
+theorem capture_repaired_shapes :
+    (1 : Capture.Name) ∈ freeVars [] f27Body ∧ (1 : Capture.Name) ∈ accessed [] f27Body
+    ∧ asInt (runScript accessed 20 f27Script) = .ok 1
+    ∧ asInt (runScript freeVars 20 f27Script) = .ok 1
+    ∧ (1 : Capture.Name) ∈ freeVars [] erasedBody ∧ (1 : Capture.Name) ∈ accessed [] erasedBody := by
+  refine ⟨by decide, by decide, rfl, rfl, by decide, by decide⟩
 
 /-- **capture_complete_partial.** For every parameter list and every body whose lines are
 expressions built from literals, variables, `+ - <`, parentheses, inline `if … then … else …` and
-calls `f(args)`, or assignments `x = e` with such an `e` that either contains no inline `if`/call
-(flat) or does not read `x`: every declaratively free variable is in the parser's
-`accessed_non_locals` — nested expression lists (the branches of inline `if`s finalize the pending
-sets early) included. The excluded assignment shape (`x` read in an `e` with nested lists) contains
-the F-C02-1 shape, where the statement is false (`capture_complete_counterexample`).
-Not covered by this theorem (covered by the correspondence only): lines `x = e` that read `x` before
-the first nested list of `e` or through a call without inline `if`, and nested function literals
-(`x = |…| body`, propagation through `add_nested_accessed_non_locals`). -/
+calls `f(args)`, or assignments `x = e` with such an `e` — which may read `x` anywhere, also after
+nested expression lists (the shape of F-C02-1, no longer excluded): every declaratively free
+variable is in the parser's `accessed_non_locals`.
+Not covered by this theorem (covered by the correspondence: evaluator comparison and the
+`accessed_non_locals` comparison against the real parser): assignments nested inside expressions
+and nested function literals (propagation through `add_nested_accessed_non_locals`). -/
 theorem capture_complete_partial (ps : List Capture.Name) (body : List Ex)
     (h : iteBlock body = true) (x : Capture.Name) (hx : x ∈ freeVars ps body) :
     x ∈ accessed ps body :=
   (iteBlock_complete body { assigned := ps } ps h ⟨rfl, rfl, fun _ => Iff.rfl⟩).2 x hx
 
-/-- `y = (if c then a else 3) + f(a)` ⏎ `a = a + y` ⏎ `a`: in the class, with four free variables -/
+/-- `y = (if c then a else 3) + f(a)` ⏎ `a = (if c then 1 else 2) + a + y` ⏎ `a`: in the class -/
 example :
     let body : List Ex := [.assign 5 (.add (.paren (.ite (.var 2) (.var 1) (.lit 3))) (.call 4 [.var 1])),
-                           .assign 1 (.add (.var 1) (.var 5)), .var 1]
+                           .assign 1 (.add (.add (.paren (.ite (.var 2) (.lit 1) (.lit 2))) (.var 1)) (.var 5)), .var 1]
     iteBlock body = true ∧ freeVars [] body = [2, 1, 4] ∧ accessed [] body = [2, 1, 4] := by decide
-
-/-- **capture_complete_flat_partial.** The same for flat bodies (no inline `if`, no call), where
-`x = e` may read `x` anywhere in `e` (e.g. `x = x + 1`). -/
-theorem capture_complete_flat_partial (ps : List Capture.Name) (body : List Ex)
-    (h : flatBlock body = true) (x : Capture.Name) (hx : x ∈ freeVars ps body) :
-    x ∈ accessed ps body :=
-  (flatBlock_complete body { assigned := ps } ps h ⟨rfl, rfl, fun _ => Iff.rfl⟩).2 x hx
-
-/-- the guide's `x += 1`-style body `x = x + 1` ⏎ `x` is flat, `x` is free in it and captured -/
-example : flatBlock [.assign 1 (.add (.var 1) (.lit 1)), .var 1] = true
-    ∧ (1 : Capture.Name) ∈ freeVars [] [.assign 1 (.add (.var 1) (.lit 1)), .var 1] := by decide
-
-/-- **capture_erased_counterexample** (mechanism of known finding F-C02-2). An assignment removes
-the pending access of the same name: in `x + (x = 3)` the first read of `x` is free but lost. -/
-theorem capture_erased_counterexample :
-    (1 : Capture.Name) ∈ freeVars [] erasedBody ∧ (1 : Capture.Name) ∉ accessed [] erasedBody := by
-  decide
 
 /-! ## Captured containers and default values -/
 
